@@ -279,6 +279,20 @@ func startLitefs(dir string, extraYAML string) (*litefsProc, error) {
 // startLitefsLease starts the binary with a caller-supplied lease block (YAML,
 // indented by two spaces, "%ADDR%" = this node's API address); "" = static primary.
 func startLitefsLease(dir, leaseYAML, extraYAML string) (*litefsProc, error) {
+	// The API port is chosen by binding :0 and closing it again; another worker
+	// can take it before the child binds it. That (and only that) is retried.
+	var p *litefsProc
+	var err error
+	for attempt := 0; attempt < 4; attempt++ {
+		p, err = startLitefsLeaseOnce(dir, leaseYAML, extraYAML)
+		if err == nil || !strings.Contains(err.Error(), "address already in use") {
+			return p, err
+		}
+	}
+	return p, err
+}
+
+func startLitefsLeaseOnce(dir, leaseYAML, extraYAML string) (*litefsProc, error) {
 	bin := os.Getenv("VERIF_LITEFS_BIN")
 	if bin == "" {
 		return nil, fmt.Errorf("VERIF_LITEFS_BIN not set")
@@ -350,10 +364,14 @@ func (p *litefsProc) mounted() bool {
 
 func (p *litefsProc) logTail() string {
 	b, _ := os.ReadFile(filepath.Join(p.dir, "litefs.log"))
-	if len(b) > 1500 {
-		b = b[len(b)-1500:]
+	// the end of the log names the reason; violation texts are cut after a few
+	// hundred characters, so the last lines come first
+	lines := strings.Split(strings.TrimSpace(string(b)), "\n")
+	var out []string
+	for i := len(lines) - 1; i >= 0 && len(out) < 12; i-- {
+		out = append(out, lines[i])
 	}
-	return strings.TrimSpace(string(b))
+	return "(newest line first) " + strings.Join(out, " | ")
 }
 
 // kill9 ends the process the hard way and detaches the dead mount.
